@@ -18,12 +18,10 @@ package crypto
 
 //@ func crypto.DecryptMessage(ciphertext, key, usage) (b, err)
 //@   pure
-//@   trusted_frame delegates to the etype
 //@   ensures err == nil <==> krb_dec_ok(key.KeyType, bytes(key.KeyValue), usage, bytes(ciphertext))
 //@   ensures err == nil ==> bytes(b) == krb_dec_pt(key.KeyType, bytes(key.KeyValue), usage, bytes(ciphertext))
 //@ func crypto.DecryptEncPart(ed, key, usage) (b, err)
 //@   pure
-//@   trusted_frame delegates to the etype
 //@   ensures err == nil <==> krb_dec_ok(key.KeyType, bytes(key.KeyValue), usage, bytes(ed.Cipher))
 //@   ensures err == nil ==> bytes(b) == krb_dec_pt(key.KeyType, bytes(key.KeyValue), usage, bytes(ed.Cipher))
 
